@@ -73,6 +73,9 @@ func (eng *Engine) verifyFunction(fn *ssa.Function, con *Contract, pkg *PkgInfo)
 		for _, t := range fc.objInvariants(init, init) {
 			vc.sc.assert(t.term)
 		}
+		for _, u := range con.Uses {
+			fc.useLemma(u, env)
+		}
 	}
 	if fn.Name() == "init" && fn.Synthetic != "" && fn.Pkg != nil {
 		// the package initialiser runs once: its guard flag is still false on entry
@@ -215,6 +218,9 @@ func (fc *FnCtx) loopHead(li *loopInfo, st *State) {
 			m := fc.evalExpr(spec.Decreases.Expr, env)
 			li.measure = vc.sc.define("measure", "Int", m.S)
 		}
+		for _, u := range spec.Uses {
+			fc.useLemma(u, env)
+		}
 	}
 }
 
@@ -310,6 +316,7 @@ func (fc *FnCtx) execInstr(in ssa.Instruction, st *State) {
 		fc.nilCheck(p, in, "")
 		fc.frameCheck(p, in.Val.Type(), in, st)
 		fc.storeHooks(in, st)
+		fc.elemStoreHooks(in, st)
 		vc.store(st, p, in.Val.Type(), fc.val(in.Val))
 	case *ssa.Slice:
 		fc.slice(in, st)
